@@ -36,3 +36,24 @@ Theorem C04_receive_is_absorb : forall k d x pl k' xk, recvDataMsg k d x = Ok (p
   ids_in_window (side_of k) (msg_of d) /\ side_of k' = absorb (side_of k) (msg_of d).
 Proof. exact recv_is_absorb. Qed.
 Print Assumptions C04_receive_is_absorb.
+
+(* the whole statement on the key-management model that is compared with the code (real key contexts, session keys,
+   MAC check, per-pair counters, both rotations): from the state right after a key exchange, for EVERY interleaving of
+   sends by either side and in-order deliveries - any number of messages in flight, any number of rotations - no send
+   fails, no delivery is refused, and what each side's Receive has returned followed by what is still in flight is
+   exactly what the other side passed to Send: nothing lost, doubled, reordered or changed.  The schedule only has to
+   keep a freshly drawn exponent different from the peer's exponents ([cev_ok]; in [cstep] a failing send or a refused
+   delivery would lose the text and break the equations). *)
+From OTR Require Import Proto.RatchetKeys.
+Theorem C04_fifo_exactly_once_in_order_unchanged : forall a1 a2 b1 b2 sched,
+  own true a1 -> own true a2 -> own false b1 -> own false b2 -> Forall cev_ok sched ->
+  let n := fold_left cstep sched (cinit a1 a2 b1 b2) in
+  sentA n = gotB n ++ map d_payload (cAB n) /\ sentB n = gotA n ++ map d_payload (cBA n).
+Proof. exact fifo_exactly_once_after_ake. Qed.
+Print Assumptions C04_fifo_exactly_once_in_order_unchanged.
+
+(* each single delivery: the head of a queue is accepted with the payload it was sent with *)
+Theorem C04_head_always_accepted : forall sd ks kr d q x, vdir sd ks kr (d :: q) ->
+  exists kr' xk, recvDataMsg kr d x = Ok (d_payload d, kr', xk) /\ vdir sd ks kr' q.
+Proof. exact vdir_recv. Qed.
+Print Assumptions C04_head_always_accepted.
